@@ -113,6 +113,7 @@ func (x *Exec) InstallVP(params map[string]int64) {
 		x.H.Covers = append(x.H.Covers, CoverPoint{Label: constStr(a[0]), G: g, NAssume: len(x.H.Assumes)})
 		return nil
 	}
+	in[vpPkg+"Native"] = func(x *Exec, f *frame, call *ssa.CallCommon, a []Val, g *Term) Val { return c.False }
 	in[vpPkg+"Done"] = func(x *Exec, f *frame, call *ssa.CallCommon, a []Val, g *Term) Val { return nil }
 	in[vpPkg+"Pack64"] = func(x *Exec, f *frame, call *ssa.CallCommon, a []Val, g *Term) Val {
 		arr := x.Load(a[0].(*PtrV)).(*ArrayV)
